@@ -4,6 +4,7 @@ import VOPyVerif.Proofs.ProblemNoise
 import VOPyVerif.Proofs.ProblemStd
 import VOPyVerif.Proofs.ProblemMeasure
 import VOPyVerif.Proofs.ProblemGauss
+import VOPyVerif.Proofs.ProblemInvariance
 /-!
 # C20 — problems return the nearest design's value plus configured noise; data scaled
 
@@ -531,5 +532,86 @@ theorem mem_nearestBand (x : Vec) (X : Mat) (tol : Rat) (hX : X ≠ []) (j : Nat
     j ∈ nearestBand x X tol ↔ ∃ hj : j < X.length,
       ∀ (k : Nat) (hk : k < X.length), sqDist x X[j] ≤ sqDist x X[k] + tol :=
   mem_nearestBand_iff x X tol hX j
+
+end VOPy.C20
+
+/-! # INVARIANCE — the nearest-design lookup depends on differences only
+
+What the metamorphic checks of the harness rely on ("translated / rescaled designs and queries give the
+identical index"): the *index* returned by `nearestFirst` (`np.argmin` of the squared distances, first
+minimum) is unchanged — the tie rule included, because the whole list of distances is unchanged
+(translation) or multiplied by one positive constant (scaling). -/
+namespace VOPy.C20
+open VOPy VOPy.Problem
+
+/-- **Translation invariance.**  Translating every design and the query by a common vector `t` (all of
+the length of `t`) leaves the list of squared distances literally unchanged, hence the returned index
+(first among ties) and the band of near-ties. -/
+theorem nearestFirst_translate (x t : Vec) (X : Mat) (hx : x.length = t.length)
+    (hX : ∀ r ∈ X, r.length = t.length) :
+    dists (vadd x t) (X.map (fun r => vadd r t)) = dists x X ∧
+    nearestFirst (vadd x t) (X.map (fun r => vadd r t)) = nearestFirst x X ∧
+    ∀ tol, nearestBand (vadd x t) (X.map (fun r => vadd r t)) tol = nearestBand x X tol := by
+  have h := dists_translate x t X hx hX
+  refine ⟨h, ?_, fun tol => ?_⟩
+  · simp only [nearestFirst, h]
+  · simp only [nearestBand, h]
+
+/-- **Scaling invariance.**  Multiplying every design and the query by `c ≠ 0` multiplies every squared
+distance by `c² > 0`; `np.argmin`'s first-minimum scan returns the same index: ties stay ties, strict
+inequalities stay strict. -/
+theorem nearestFirst_scale (c : Rat) (hc : c ≠ 0) (x : Vec) (X : Mat) :
+    dists (smul c x) (X.map (smul c)) = (dists x X).map (fun d => c * c * d) ∧
+    nearestFirst (smul c x) (X.map (smul c)) = nearestFirst x X := by
+  have h := dists_scale c x X
+  refine ⟨h, ?_⟩
+  simp only [nearestFirst, h]
+  exact argminFirst_map _ (mul_sq_lt_iff c hc) _
+
+/-- **The first-minimum rule is order-theoretic**: `np.argmin` (first index of the minimum) commutes
+with every strictly increasing re-labelling of the values. -/
+theorem argmin_strictMono_invariant (f : Rat → Rat) (hf : ∀ x y, f x < f y ↔ x < y) (l : List Rat) :
+    argminFirst (l.map f) = argminFirst l :=
+  argminFirst_map f hf l
+
+/-- **`evaluate` is invariant**: looking up the translated (resp. rescaled) queries among the
+translated (resp. rescaled) designs returns the same objective rows. -/
+theorem evaluate_translate_scale (X Y xs : Mat) (t : Vec) (c : Rat) (hc : c ≠ 0)
+    (hX : ∀ r ∈ X, r.length = t.length) (hxs : ∀ x ∈ xs, x.length = t.length) :
+    evaluate (X.map (fun r => vadd r t)) Y (xs.map (fun r => vadd r t)) = evaluate X Y xs ∧
+    evaluate (X.map (smul c)) Y (xs.map (smul c)) = evaluate X Y xs := by
+  have key : ∀ (T : Vec → Vec) (X' : Mat) (l : Mat),
+      (∀ x ∈ l, nearestFirst (T x) X' = nearestFirst x X) →
+      evaluate X' Y (l.map T) = evaluate X Y l := by
+    intro T X' l
+    induction l with
+    | nil => intro _; rfl
+    | cons x l ih =>
+      intro h
+      have ih' := ih (fun y hy => h y (by simp [hy]))
+      simp only [evaluate, List.map_cons, List.mapM_cons] at ih' ⊢
+      rw [h x (by simp), ih']
+  exact ⟨key _ _ xs (fun x hx => (nearestFirst_translate x t X (hxs x hx) hX).2.1),
+    key _ _ xs (fun x _ => (nearestFirst_scale c hc x X).2)⟩
+
+/-! ### non-vacuity: offset `2^20`, distances of size `2^-10` -/
+
+/-- a tie between designs 1 and 2 (both at squared distance `2^-22` from the query) next to the offset
+`(2^20, −2^20)`: the first of the two is returned, before and after translation, and after scaling by
+`2^20` -/
+example :
+    nearestFirst [1/2048, 0] [[2/1024, 0], [1/1024, 0], [0, 0], [1/2048, 5]] = some 1 ∧
+    nearestFirst (vadd [1/2048, 0] [1048576, -1048576])
+      ([[2/1024, 0], [1/1024, 0], [0, 0], [1/2048, 5]].map (fun r => vadd r [1048576, -1048576])) = some 1 ∧
+    nearestFirst (smul 1048576 [1/2048, 0])
+      ([[2/1024, 0], [1/1024, 0], [0, 0], [1/2048, 5]].map (smul 1048576)) = some 1 := by
+  decide +kernel
+
+example :
+    nearestFirst (vadd [1/2048, 0] [1048576, -1048576])
+      ([[2/1024, 0], [1/1024, 0], [0, 0], [1/2048, 5]].map (fun r => vadd r [1048576, -1048576])) =
+    nearestFirst [1/2048, 0] [[2/1024, 0], [1/1024, 0], [0, 0], [1/2048, 5]] :=
+  (nearestFirst_translate [1/2048, 0] [1048576, -1048576] [[2/1024, 0], [1/1024, 0], [0, 0], [1/2048, 5]]
+    rfl (by decide)).2.1
 
 end VOPy.C20
